@@ -52,7 +52,7 @@ CLASSES.update({
     '_state': 'int', '_open_result': 'AsyncResult?', '_send_queue': 'Queue', '_socket': 'Socket',
     '_greenlets': 'any'}),
   'Queue': dict(extern=True, path=None, bases=[], fields={}),
-  'Socket': dict(extern=True, path=None, bases=[], fields={'connected': 'bool'}),
+  'Socket': dict(extern=True, path=None, bases=[], fields={'connected': 'bool', 'host': 'any', 'port': 'int', 'g_epoch': 'int', 'g_written': 'int'}, ghost=['g_epoch', 'g_written']),
   'Stream': dict(extern=True, path=None, bases=[], fields={}),
 })
 
